@@ -1,0 +1,68 @@
+//go:build verif
+
+package tendermint
+
+import (
+	"github.com/NethermindEth/juno/consensus/types"
+	"github.com/NethermindEth/juno/consensus/votecounter"
+)
+
+// VerifState is a read-only copy of the unexported Tendermint process state. It only exists in
+// builds with the `verif` tag and is used by the external conformance harness to compare the
+// state machine with its TLA+ specification after every input.
+type VerifState[V types.Hashable[H], H types.Hash] struct {
+	Height types.Height
+	Round  types.Round
+	Step   types.Step
+
+	LockedValue *V
+	LockedRound types.Round
+	ValidValue  *V
+	ValidRound  types.Round
+
+	TimeoutPrevoteScheduled       bool
+	TimeoutPrecommitScheduled     bool
+	LockedValueAndOrValidValueSet bool
+
+	IsHeightStarted bool
+	LastTriggerSync types.Height
+	LastQuorum      types.Height
+}
+
+// VerifExportState returns the current state of a state machine created by New. The second
+// result is false when sm is some other implementation of the interface.
+func VerifExportState[V types.Hashable[H], H types.Hash, A types.Addr](
+	sm StateMachine[V, H, A],
+) (VerifState[V, H], bool) {
+	s, ok := sm.(*stateMachine[V, H, A])
+	if !ok {
+		return VerifState[V, H]{}, false
+	}
+	return VerifState[V, H]{
+		Height:                        s.state.height,
+		Round:                         s.state.round,
+		Step:                          s.state.step,
+		LockedValue:                   s.state.lockedValue,
+		LockedRound:                   s.state.lockedRound,
+		ValidValue:                    s.state.validValue,
+		ValidRound:                    s.state.validRound,
+		TimeoutPrevoteScheduled:       s.state.timeoutPrevoteScheduled,
+		TimeoutPrecommitScheduled:     s.state.timeoutPrecommitScheduled,
+		LockedValueAndOrValidValueSet: s.state.lockedValueAndOrValidValueSet,
+		IsHeightStarted:               s.isHeightStarted,
+		LastTriggerSync:               s.lastTriggerSync,
+		LastQuorum:                    s.lastQuorum,
+	}, true
+}
+
+// VerifVoteCounter gives read access to the state machine's vote counter through its public
+// query methods (GetProposal, HasQuorumForVote, HasQuorumForAny, HasNonFaultyFutureMessage).
+func VerifVoteCounter[V types.Hashable[H], H types.Hash, A types.Addr](
+	sm StateMachine[V, H, A],
+) *votecounter.VoteCounter[V, H, A] {
+	s, ok := sm.(*stateMachine[V, H, A])
+	if !ok {
+		return nil
+	}
+	return &s.voteCounter
+}
